@@ -46,4 +46,9 @@ pub mod verif {
     pub use super::prefix_int::Error as PrefixIntError;
     pub use super::prefix_string::{decode as prefix_string_decode, encode as prefix_string_encode};
     pub use super::prefix_string::Error as PrefixStringError;
+    // stateful (dynamic table) QPACK: the types are crate-private, their `From<DynamicTable>`
+    // constructors are `cfg(test)` only
+    pub use super::decoder::{ack_header, stream_canceled, Decoder};
+    pub use super::dynamic::{DynamicTable, Error as DynamicTableError, VerifTableState};
+    pub use super::encoder::{set_dynamic_table_size, Encoder};
 }
